@@ -84,6 +84,49 @@ pub fn in_chars27_enum(s: &[u8], lc: u32) -> bool {
     }
 }
 
+/// `bytes` decoded leniently with every replacement character removed: the well-formed characters it contains
+fn wellformed_chars(bytes: &[u8]) -> String {
+    String::from_utf8_lossy(bytes).chars().filter(|c| *c != '\u{fffd}').collect()
+}
+
+/// Input that is not valid UTF-8: the statement fixes the structure of the output; beyond that the check demands that
+/// the ASCII text and every *well-formed* character of the visible text survive, under either decoder policy for the
+/// byte that follows a truncated character (re-processed / swallowed) — DESIGN 8.1.
+fn compare_invalid(name: &str, data: &[u8], out: &[u8], visible_reprocess: &[u8]) -> Result<(), (String, String)> {
+    let got_ascii = vt::ascii_only(out);
+    let got_chars = wellformed_chars(out);
+    let want_ascii = vt::ascii_only(visible_reprocess);
+    let want_chars = wellformed_chars(visible_reprocess);
+    if got_ascii == want_ascii && got_chars == want_chars {
+        return Ok(());
+    }
+    let alt = vt::visible(data, Policy::Consume);
+    if got_ascii == vt::ascii_only(&alt) && got_chars == wellformed_chars(&alt) {
+        return Ok(());
+    }
+    let hyb = vt::visible(data, Policy::Hybrid);
+    if got_ascii == vt::ascii_only(&hyb) && got_chars == wellformed_chars(&hyb) {
+        return Ok(());
+    }
+    if got_ascii != want_ascii {
+        return Err((
+            format!("c01:{name}:ascii-visible-text"),
+            format!("ASCII projection observed {:?}, expected {:?} (or {:?} under the swallow policy)", show(&got_ascii), show(&want_ascii), show(&vt::ascii_only(&alt))),
+        ));
+    }
+    Err((
+        format!("c01:{name}:wellformed-characters"),
+        format!(
+            "well-formed characters observed {:?}, expected {:?} (re-process policy), {:?} (swallow policy) or {:?} (hybrid); output {:?}",
+            show(got_chars.as_bytes()),
+            show(want_chars.as_bytes()),
+            show(wellformed_chars(&alt).as_bytes()),
+            show(wellformed_chars(&hyb).as_bytes()),
+            show(out)
+        ),
+    ))
+}
+
 fn is_nontrivial(data: &[u8]) -> bool {
     data.iter().any(|b| *b < 0x20 || *b >= 0x7f)
 }
@@ -128,21 +171,65 @@ pub fn check_input(data: &[u8], st: &mut Stats) -> Result<(), (String, String)> 
         }
         None => {
             st.count("inputs_not_valid_utf8");
-            let want = vt::ascii_only(&exp.visible);
-            let alt = vt::ascii_only(&vt::visible(data, Policy::Consume));
             for (name, out) in outs.iter() {
-                let got = vt::ascii_only(out);
-                if got != want && got != alt {
-                    return Err((
-                        format!("c01:{name}:ascii-visible-text"),
-                        format!("ASCII projection observed {:?}, expected {:?} (or {:?} under the swallow policy)", show(&got), show(&want), show(&alt)),
-                    ));
-                }
+                compare_invalid(name, data, out, &exp.visible)?;
                 if **out != out_bytes {
                     return Err((format!("c01:{name}:entry-points-disagree"), format!("{:?} vs strip_bytes {:?}", show(out), show(&out_bytes))));
                 }
             }
         }
+    }
+
+    // ---- the incremental adapters fed in pieces: unit by unit, and under a partition derived from the input
+    if data.len() >= 2 {
+        let mut rng = Rng::new(hash64(data), 0xC01);
+        let plans: [(&str, Vec<usize>); 2] = [("unit-by-unit", (1..data.len()).collect()), ("pseudo-random partition", gen::chunk_cuts(&mut rng, data.len(), gen::Chunker::Random(4)))];
+        for (plan, cuts) in plans.iter() {
+            let chunks = gen::split_at_cuts(data, cuts);
+            let mut sb = anstream::adapter::StripBytes::new();
+            let mut out = Vec::with_capacity(data.len());
+            for c in &chunks {
+                let ps: Vec<&[u8]> = sb.strip_next(c).collect();
+                pieces_ok(c, &ps).map_err(|e| ("c01:StripBytes(chunked):pieces".to_string(), e))?;
+                for p in ps {
+                    out.extend_from_slice(p);
+                }
+            }
+            let mut stream = anstream::StripStream::new(Vec::new());
+            for c in &chunks {
+                stream.write_all(c).map_err(|e| ("c01:StripStream(chunked):error".to_string(), e.to_string()))?;
+            }
+            let out2 = stream.into_inner();
+            for (name, o) in [("StripBytes(chunked)", &out), ("StripStream(chunked)", &out2)] {
+                if let Some((i, b)) = forbidden_byte(o) {
+                    return Err((format!("c01:{name}:control-byte-in-output"), format!("[{plan}] output byte {i} is {b:#04x}: {}", show(o))));
+                }
+                match valid {
+                    Some(_) => {
+                        if *o != exp.visible {
+                            return Err((format!("c01:{name}:visible-text"), format!("[{plan}, cuts {:?}] observed {:?}, expected {:?}", &cuts[..cuts.len().min(12)], show(o), show(&exp.visible))));
+                        }
+                    }
+                    None => compare_invalid(name, data, o, &exp.visible).map_err(|(s, m)| (s, format!("[{plan}, cuts {:?}] {m}", &cuts[..cuts.len().min(12)])))?,
+                }
+            }
+            if let Some(s) = valid {
+                let ccuts = gen::cuts_to_char_boundaries(s, cuts);
+                let mut ss = anstream::adapter::StripStr::new();
+                let mut o = String::new();
+                let mut prev = 0;
+                for &c in ccuts.iter().chain(std::iter::once(&s.len())) {
+                    for p in ss.strip_next(&s[prev..c]) {
+                        o.push_str(p);
+                    }
+                    prev = c;
+                }
+                if o.as_bytes() != &exp.visible[..] {
+                    return Err(("c01:StripStr(chunked):visible-text".into(), format!("[{plan}, cuts {:?}] observed {:?}, expected {:?}", &ccuts[..ccuts.len().min(12)], show(o.as_bytes()), show(&exp.visible))));
+                }
+            }
+        }
+        st.count("inputs_also_run_chunked");
     }
 
     // ---- text entry points
